@@ -241,3 +241,6 @@ package geom
 //@   ensures pt.full ==> same(deref(result0.ptr, Point).coords.XY, pt.coords.XY)
 //@   ensures pt.full && HasZ(pt.coords.Type) ==> same(deref(result0.ptr, Point).coords.Z, pt.coords.Z)
 //@   ensures pt.full && HasM(pt.coords.Type) ==> same(deref(result0.ptr, Point).coords.M, pt.coords.M)
+
+//@ func Geometry.AppendWKB
+//@   modifies dst
